@@ -1,8 +1,555 @@
-//! placeholder: this component is not built yet
+//! C20 — the `tridas` listing re-assembles to the code it was produced from.
+//!
+//! Generated binaries satisfy the property's hypothesis: a random mix of valid instructions produced with the real
+//! `Instruction::encode`, forward / backward / self `B`, `B<cond>`, `BL` to instruction boundaries inside the file, every
+//! instruction reachable from the first by fall-through and direct branches, a terminal instruction at the end, no
+//! PC-relative data reference (no ADR, no LDR literal).  Each binary is written to disk, disassembled by the REAL
+//! `tridas`, the listing assembled by the REAL `trias`, the UF2 read back by an independent reader in this module.
+//!  * oracle: `trias` accepts the listing (a UF2 appears, stderr is empty), the image holds exactly the input bytes at
+//!    0x20000000 plus zero padding up to the page boundary, and every in-file branch target has exactly one `l_XXXXXXXX:`
+//!    line, placed immediately before the instruction at that address;
+//!  * correspondence: the listing's line structure (header, blank lines, label lines with their addresses, instruction
+//!    lines) equals the Lean model `Trion.Tridas.listing` run on the same decode table, and the text of every
+//!    instruction line equals `instr.at(addr)` for the address the model assigns to it.
+use std::collections::{BTreeMap, BTreeSet};
+use std::process::Command;
+
+use trion::arm6m::asm::{ImmReg, Instruction};
+use trion::arm6m::reg::Register;
+
 use crate::common::*;
 
-pub fn run(id: &str, cx: &mut Cx)
+const BASE: u32 = 0x2000_0000;
+
+fn enc(i: &Instruction) -> Option<Vec<u8>>
 {
-	cx.report.notes.push(format!("component for {id} not implemented"));
-	cx.report.oracle_fail("-", "harness component not implemented");
+	let mut buf = [0u8; 4];
+	match i.encode(&mut buf)
+	{
+		Ok(n) => Some(buf[..n].to_vec()),
+		Err(..) => None,
+	}
+}
+
+/// decode that never panics the harness
+fn dec(bytes: &[u8]) -> Option<(usize, Instruction)>
+{
+	match guarded(|| Instruction::decode(bytes)) {Ok(Ok(r)) => Some(r), _ => None}
+}
+
+fn pc_relative_data(i: &Instruction) -> bool
+{
+	matches!(i, Instruction::Adr{..} | Instruction::Ldr{addr: Register::PC, ..})
+}
+
+/// a returning, non-branching instruction in canonical encoding
+fn random_regular(rng: &mut Rng) -> (Instruction, Vec<u8>)
+{
+	loop
+	{
+		let bytes: Vec<u8> = if rng.chance(1, 10)
+		{
+			// 32-bit encodings other than BL
+			let (h0, h1): (u16, u16) = match rng.below(6)
+			{
+				0 => (0xF3BF, 0x8F4F),
+				1 => (0xF3BF, 0x8F5F),
+				2 => (0xF3BF, 0x8F6F),
+				3 => (0xF3EF, 0x8000 | ((rng.below(13) as u16) << 8) | (*rng.pick(&[0u16, 1, 2, 3, 5, 6, 7, 8, 9, 16, 20]))),
+				4 => (0xF380 | rng.below(13) as u16, 0x8800 | (*rng.pick(&[0u16, 1, 2, 3, 5, 6, 7, 8, 9, 16, 20]))),
+				_ => (0xF000 | (rng.next() as u16 & 0x0FFF), rng.next() as u16),
+			};
+			let mut b = h0.to_le_bytes().to_vec();
+			b.extend_from_slice(&h1.to_le_bytes());
+			b
+		}
+		else {(rng.next() as u16).to_le_bytes().to_vec()};
+		let Some((n, i)) = dec(&bytes) else {continue};
+		if n != bytes.len() {continue;}
+		if pc_relative_data(&i) || matches!(i, Instruction::B{..} | Instruction::Bl{..}) || !i.get_returns() {continue;}
+		match enc(&i)
+		{
+			Some(e) if e == bytes => return (i, e),
+			_ => continue,
+		}
+	}
+}
+
+/// a non-returning instruction other than `B`
+fn random_terminal(rng: &mut Rng) -> (Instruction, Vec<u8>)
+{
+	loop
+	{
+		let bytes: Vec<u8> = match rng.below(20)
+		{
+			0..=5 => (0x4700u16 | ((rng.below(15) as u16) << 3)).to_le_bytes().to_vec(),
+			6..=11 => (0xBD00u16 | rng.below(256) as u16).to_le_bytes().to_vec(),
+			12..=15 => (0xDE00u16 | rng.below(256) as u16).to_le_bytes().to_vec(),
+			16 => (0xBE00u16 | rng.below(256) as u16).to_le_bytes().to_vec(),
+			17 => {let mut b = (0xF7F0u16 | rng.below(16) as u16).to_le_bytes().to_vec(); b.extend_from_slice(&(0xA000u16 | rng.below(4096) as u16).to_le_bytes()); b},
+			18 => (0x4687u16 | ((rng.below(15) as u16) << 3)).to_le_bytes().to_vec(),
+			_ => (0x4487u16 | ((rng.below(13) as u16) << 3)).to_le_bytes().to_vec(),
+		};
+		let Some((n, i)) = dec(&bytes) else {continue};
+		if n != bytes.len() || i.get_returns() || i.get_branch(BASE).is_some() {continue;}
+		match enc(&i) {Some(e) if e == bytes => return (i, e), _ => continue}
+	}
+}
+
+#[derive(Clone, Debug)]
+enum Item
+{
+	Plain(Instruction, Vec<u8>),
+	/// conditional branch (template carries the condition), target index
+	Bcc(Instruction, usize),
+	B(usize),
+	Bl(usize),
+}
+
+impl Item
+{
+	fn size(&self) -> u32 {match self {Item::Plain(_, b) => b.len() as u32, Item::Bl(..) => 4, _ => 2}}
+	fn returns(&self) -> bool {match self {Item::Plain(i, _) => i.get_returns(), Item::B(..) => false, _ => true}}
+	fn target(&self) -> Option<usize> {match self {Item::Bcc(_, t) | Item::B(t) | Item::Bl(t) => Some(*t), _ => None}}
+	fn set_target(&mut self, t: usize) {match self {Item::Bcc(_, x) | Item::B(x) | Item::Bl(x) => *x = t, _ => ()}}
+}
+
+fn reachable(items: &[Item]) -> Vec<bool>
+{
+	let mut seen = vec![false; items.len()];
+	let mut work = vec![0usize];
+	while let Some(k) = work.pop()
+	{
+		if k >= items.len() || seen[k] {continue;}
+		seen[k] = true;
+		if items[k].returns() {work.push(k + 1);}
+		if let Some(t) = items[k].target() {work.push(t);}
+	}
+	seen
+}
+
+fn gen_binary(rng: &mut Rng, max_n: u64) -> Option<Vec<u8>>
+{
+	let n = 1 + rng.below(max_n) as usize;
+	let style = rng.below(4);
+	let mut items: Vec<Item> = Vec::with_capacity(n);
+	for k in 0..n
+	{
+		let last = k + 1 == n;
+		let t = rng.below(n as u64) as usize;
+		let roll = rng.below(100);
+		let it = if last
+		{
+			if rng.chance(1, 4) {Item::B(t)} else {let (i, b) = random_terminal(rng); Item::Plain(i, b)}
+		}
+		else
+		{
+			match (style, roll)
+			{
+				(0, 0..=84) | (1, 0..=59) | (2, 0..=39) | (3, 0..=19) => {let (i, b) = random_regular(rng); Item::Plain(i, b)},
+				(_, r) if r % 4 == 0 =>
+				{
+					let c = rng.below(14) as u16;
+					let (_, tmpl) = dec(&(0xD000u16 | (c << 8)).to_le_bytes())?;
+					Item::Bcc(tmpl, t)
+				},
+				(_, r) if r % 4 == 1 => Item::B(t),
+				(_, r) if r % 4 == 2 => Item::Bl(t),
+				_ => {let (i, b) = random_terminal(rng); Item::Plain(i, b)},
+			}
+		};
+		items.push(it);
+	}
+	// repair reachability: every instruction must be reachable from the first
+	for _ in 0..4 * n + 8
+	{
+		let seen = reachable(&items);
+		let Some(j) = seen.iter().position(|s| !*s) else {break};
+		// j >= 1, j-1 is reachable and does not fall through
+		let branches: Vec<usize> = (0..n).filter(|k| seen[*k] && items[*k].target().is_some()).collect();
+		if !branches.is_empty() && rng.chance(1, 2)
+		{
+			let k = *rng.pick(&branches);
+			items[k].set_target(j);
+		}
+		else
+		{
+			items[j - 1] = match &items[j - 1]
+			{
+				Item::B(t) =>
+				{
+					let c = rng.below(14) as u16;
+					let (_, tmpl) = dec(&(0xD000u16 | (c << 8)).to_le_bytes())?;
+					Item::Bcc(tmpl, *t)
+				},
+				Item::Plain(_, b) =>
+				{
+					// same size, falls through
+					let want = b.len();
+					let mut r = random_regular(rng);
+					let mut tries = 0;
+					while r.1.len() != want && tries < 200 {r = random_regular(rng); tries += 1;}
+					if r.1.len() != want {return None;}
+					Item::Plain(r.0, r.1)
+				},
+				other => other.clone(),
+			};
+		}
+	}
+	if reachable(&items).iter().any(|s| !*s) {return None;}
+	// addresses and encoding
+	let mut addr = Vec::with_capacity(n + 1);
+	let mut a = 0u32;
+	for it in &items {addr.push(a); a += it.size();}
+	let mut out = Vec::new();
+	for (k, it) in items.iter().enumerate()
+	{
+		let off = |t: usize| addr[t] as i32 - (addr[k] as i32 + 4);
+		let bytes = match it
+		{
+			Item::Plain(_, b) => b.clone(),
+			Item::Bcc(Instruction::B{cond, ..}, t) => enc(&Instruction::B{cond: *cond, off: off(*t)})?,
+			Item::Bcc(..) => return None,
+			Item::B(t) =>
+			{
+				let (_, tmpl) = dec(&0xE000u16.to_le_bytes())?;
+				let Instruction::B{cond, ..} = tmpl else {return None};
+				enc(&Instruction::B{cond, off: off(*t)})?
+			},
+			Item::Bl(t) => enc(&Instruction::Bl{off: off(*t)})?,
+		};
+		if bytes.len() as u32 != it.size() {return None;}
+		out.extend_from_slice(&bytes);
+	}
+	Some(out)
+}
+
+// ---------------------------------------------------------------------------------------------------------
+
+/// what the property's hypothesis says about a binary, computed from the bytes alone with the real decoder
+struct Shape
+{
+	/// instruction boundaries (offsets) with the decoded instruction
+	instrs: Vec<(u32, usize, Instruction)>,
+	/// in-file branch targets (addresses)
+	targets: BTreeSet<u32>,
+	well_formed: Result<(), String>,
+}
+
+fn shape(bin: &[u8]) -> Shape
+{
+	let mut instrs = Vec::new();
+	let mut pos = 0usize;
+	let mut wf = Ok(());
+	while pos < bin.len()
+	{
+		match dec(&bin[pos..])
+		{
+			Some((n, i)) =>
+			{
+				if pc_relative_data(&i) {wf = Err(format!("PC-relative data reference at offset {pos}"));}
+				instrs.push((pos as u32, n, i));
+				pos += n;
+			},
+			None => {wf = Err(format!("no valid instruction at offset {pos}")); break;},
+		}
+	}
+	let bounds: BTreeSet<u32> = instrs.iter().map(|x| BASE + x.0).collect();
+	let mut targets = BTreeSet::new();
+	for (p, _, i) in &instrs
+	{
+		if let Some(d) = i.get_branch(BASE + p)
+		{
+			if d >= BASE && ((d - BASE) as usize) < bin.len()
+			{
+				targets.insert(d);
+				if !bounds.contains(&d) && wf.is_ok() {wf = Err(format!("branch at offset {p} targets {d:08X}, not an instruction boundary"));}
+			}
+			else if wf.is_ok() {wf = Err(format!("branch at offset {p} leaves the file"));}
+		}
+	}
+	if wf.is_ok()
+	{
+		let index: BTreeMap<u32, usize> = instrs.iter().enumerate().map(|(k, x)| (BASE + x.0, k)).collect();
+		let mut seen = vec![false; instrs.len()];
+		let mut work = vec![0usize];
+		while let Some(k) = work.pop()
+		{
+			if k >= instrs.len() || seen[k] {continue;}
+			seen[k] = true;
+			if instrs[k].2.get_returns() {work.push(k + 1);}
+			if let Some(d) = instrs[k].2.get_branch(BASE + instrs[k].0) {if let Some(t) = index.get(&d) {work.push(*t);}}
+		}
+		if let Some(k) = seen.iter().position(|s| !*s) {wf = Err(format!("instruction at offset {} is not reachable", instrs[k].0));}
+		if instrs.is_empty() {wf = Err("empty file".to_owned());}
+	}
+	Shape{instrs, targets, well_formed: wf}
+}
+
+fn describe(i: &Instruction) -> String
+{
+	match i
+	{
+		Instruction::Add{dst, ..} => format!("add:{}", u8::from(*dst)),
+		Instruction::Mov{dst, ..} => format!("mov:{}", u8::from(*dst)),
+		Instruction::Sub{dst, ..} => format!("sub:{}", u8::from(*dst)),
+		Instruction::Pop{registers} => format!("pop:{}", registers.get_bits()),
+		Instruction::B{cond, off} => format!("b:{}:{}", u8::from(*cond), off),
+		Instruction::Bl{off} => format!("bl:{off}"),
+		Instruction::Bx{..} => "bx".to_owned(),
+		Instruction::Bkpt{..} => "bkpt".to_owned(),
+		Instruction::Udf{..} => "udf".to_owned(),
+		Instruction::Udfw{..} => "udfw".to_owned(),
+		_ => "o".to_owned(),
+	}
+}
+
+fn model_request(bin: &[u8]) -> String
+{
+	let mut s = format!("tridas list {}", bin.len());
+	let mut pos = 0;
+	while pos < bin.len()
+	{
+		if let Some((n, i)) = dec(&bin[pos..]) {s.push_str(&format!(" {pos}/{n}/{}", describe(&i)));}
+		pos += 2;
+	}
+	s
+}
+
+/// independent UF2 reader: 512-byte blocks, target address at 0x0C, payload size at 0x10, data at 0x20
+fn read_uf2(data: &[u8]) -> Result<BTreeMap<u32, u8>, String>
+{
+	if data.is_empty() || data.len() % 512 != 0 {return Err(format!("UF2 length {} is not a positive multiple of 512", data.len()));}
+	let word = |b: &[u8], o: usize| u32::from_le_bytes([b[o], b[o + 1], b[o + 2], b[o + 3]]);
+	let mut image = BTreeMap::new();
+	let total = data.len() / 512;
+	for (k, b) in data.chunks(512).enumerate()
+	{
+		if word(b, 0) != 0x0A32_4655 || word(b, 4) != 0x9E5D_5157 || word(b, 508) != 0x0AB1_6F30 {return Err(format!("block {k}: bad magic"));}
+		let (addr, size, no, cnt) = (word(b, 0x0C), word(b, 0x10) as usize, word(b, 0x14), word(b, 0x18));
+		if size > 476 {return Err(format!("block {k}: payload size {size}"));}
+		if no as usize != k || cnt as usize != total {return Err(format!("block {k}: numbered {no} of {cnt}, file has {total}"));}
+		for j in 0..size
+		{
+			if image.insert(addr.wrapping_add(j as u32), b[0x20 + j]).is_some() {return Err(format!("block {k}: address {:08X} written twice", addr.wrapping_add(j as u32)));}
+		}
+	}
+	Ok(image)
+}
+
+fn check_one(cx: &mut Cx, bin: &[u8], reply: &str, serial: u64)
+{
+	let input = hex(bin);
+	let sh = shape(bin);
+	let dir = cx.work.join(format!("t{}", serial % 16));
+	std::fs::create_dir_all(&dir).unwrap();
+	let (bin_path, asm_path, uf2_path) = (dir.join("code.bin"), dir.join("listing.asm"), dir.join("out.uf2"));
+	std::fs::write(&bin_path, bin).unwrap();
+	let _ = std::fs::remove_file(&uf2_path);
+	let out = Command::new(repo_bin("tridas")).arg(&bin_path).output().expect("cannot run tridas (./check builds it: needs_bins)");
+	let listing = String::from_utf8_lossy(&out.stdout).into_owned();
+	let tridas_ok = out.status.success() && out.stderr.is_empty();
+	// --- structure of the listing
+	let lines: Vec<&str> = listing.lines().collect();
+	let mut tokens: Vec<String> = Vec::new();
+	let mut instr_text: Vec<&str> = Vec::new();
+	for (k, l) in lines.iter().enumerate()
+	{
+		if k == 0 && *l == ".addr 0x20000000;" {tokens.push("H".to_owned());}
+		else if l.is_empty() {tokens.push("B".to_owned());}
+		else if let Some(rest) = l.strip_prefix("l_").and_then(|r| r.strip_suffix(':')) {tokens.push(format!("L{}", rest.to_lowercase()));}
+		else if let Some(t) = l.strip_prefix('\t') {tokens.push("I".to_owned()); instr_text.push(t);}
+		else {tokens.push(format!("?{}", l.replace(' ', "_")));}
+	}
+	let imp_struct = if tridas_ok {tokens.join(" ")} else {format!("PANIC: {}", String::from_utf8_lossy(&out.stderr).lines().next().unwrap_or("").to_owned())};
+	// the model: same tokens, instruction lines carry their address
+	let model_lines = reply.split('|').next().unwrap_or("").trim();
+	let mut model_addrs: Vec<u32> = Vec::new();
+	let model_struct = if reply.starts_with("PANIC") {format!("PANIC: {}", &reply[5..].trim())} else
+	{
+		model_lines.split(' ').filter(|w| !w.is_empty()).map(|w|
+		{
+			if let Some(a) = w.strip_prefix('I') {model_addrs.push(u32::from_str_radix(a, 16).unwrap_or(0)); "I".to_owned()} else {w.to_owned()}
+		}).collect::<Vec<_>>().join(" ")
+	};
+	cx.report.case(Some(&imp_struct));
+	let agree = if reply.starts_with("PANIC") && !tridas_ok {true} else {cx.report.compare("model.tridas.listing", &input, &model_struct, &imp_struct)};
+	if !agree && reply.starts_with("PANIC") != !tridas_ok {return;}
+	if agree && tridas_ok
+	{
+		// text of every instruction line at the address the model assigns to it
+		for (k, a) in model_addrs.iter().enumerate()
+		{
+			let want = dec(&bin[(a - BASE) as usize..]).map(|(_, i)| format!("{}", i.at(*a))).unwrap_or_else(|| "<undecodable>".to_owned());
+			if instr_text.get(k).copied() != Some(want.as_str())
+			{
+				cx.report.disagree("model.tridas.listing", input.clone(), format!("line {k}: {a:08X} {want}"), format!("line {k}: {:?}", instr_text.get(k)));
+				break;
+			}
+		}
+	}
+	match &sh.well_formed
+	{
+		Err(why) =>
+		{
+			cx.report.hit("outside the hypothesis (model comparison only)");
+			cx.report.notes.push(format!("{input}: {why}"));
+			return;
+		},
+		Ok(()) => (),
+	}
+	cx.report.hit_n("instructions", sh.instrs.len() as u64);
+	cx.report.hit_n("in-file branch targets", sh.targets.len() as u64);
+	for (p, _, i) in &sh.instrs
+	{
+		if let Some(d) = i.get_branch(BASE + p)
+		{
+			cx.report.hit(if d < BASE + p {"branch backward"} else if d == BASE + p {"branch to itself"} else {"branch forward"});
+		}
+		cx.report.hit(&format!("instr {}", i.get_name()));
+	}
+	if !tridas_ok
+	{
+		cx.report.oracle_fail(input, format!("tridas failed on a well-formed binary: {}", String::from_utf8_lossy(&out.stderr)));
+		return;
+	}
+	// --- oracle 1: labels
+	if instr_text.len() != sh.instrs.len()
+	{
+		cx.report.oracle_fail(input.clone(), format!("the binary has {} instructions, the listing {} instruction lines", sh.instrs.len(), instr_text.len()));
+	}
+	else
+	{
+		let mut label_count: BTreeMap<u32, usize> = BTreeMap::new();
+		let mut k = 0usize; // index of the next instruction line
+		for (li, t) in tokens.iter().enumerate()
+		{
+			if t == "I" {k += 1;}
+			else if let Some(a) = t.strip_prefix('L')
+			{
+				let a = u32::from_str_radix(a, 16).unwrap_or(0);
+				*label_count.entry(a).or_insert(0) += 1;
+				let next_is_instr = tokens.get(li + 1).map(String::as_str) == Some("I");
+				let at = sh.instrs.get(k).map(|x| BASE + x.0);
+				if !next_is_instr || at != Some(a)
+				{
+					cx.report.oracle_fail(input.clone(), format!("label l_{a:08X} is not immediately before the instruction at that address (next instruction is at {at:?})"));
+				}
+			}
+		}
+		for t in &sh.targets
+		{
+			if label_count.get(t).copied().unwrap_or(0) != 1
+			{
+				cx.report.oracle_fail(input.clone(), format!("branch target {t:08X} has {} label definitions", label_count.get(t).copied().unwrap_or(0)));
+			}
+		}
+		for (a, _) in &label_count
+		{
+			if !sh.targets.contains(a) {cx.report.oracle_fail(input.clone(), format!("label l_{a:08X} is not a branch target"));}
+		}
+	}
+	// --- oracle 2: the listing assembles back to the input
+	std::fs::write(&asm_path, &listing).unwrap();
+	let out = Command::new(repo_bin("trias")).arg(&asm_path).arg(&uf2_path).output().expect("cannot run trias");
+	let stderr = String::from_utf8_lossy(&out.stderr).into_owned();
+	let uf2 = std::fs::read(&uf2_path).ok();
+	match uf2
+	{
+		None =>
+		{
+			cx.report.hit("trias rejected the listing");
+			cx.report.oracle_fail(input, format!("trias does not accept the listing: {}", stderr.lines().take(3).collect::<Vec<_>>().join(" / ")));
+		},
+		Some(data) =>
+		{
+			if !stderr.is_empty() || !out.status.success()
+			{
+				cx.report.oracle_fail(input.clone(), format!("trias reported: {}", stderr.lines().next().unwrap_or("")));
+			}
+			match read_uf2(&data)
+			{
+				Err(e) => cx.report.oracle_fail(input, format!("the UF2 file is malformed: {e}")),
+				Ok(image) =>
+				{
+					let mut bad = None;
+					for (k, b) in bin.iter().enumerate()
+					{
+						if image.get(&(BASE + k as u32)) != Some(b) {bad = Some(format!("byte at {:08X} is {:?}, input has {b:02x}", BASE + k as u32, image.get(&(BASE + k as u32)))); break;}
+					}
+					let end = BASE + ((bin.len() as u32 + 255) / 256) * 256;
+					for (a, b) in &image
+					{
+						if *a < BASE || *a >= end {bad = Some(format!("image holds a byte at {a:08X}, outside the padded code")); break;}
+						if *a >= BASE + bin.len() as u32 && *b != 0 {bad = Some(format!("padding byte at {a:08X} is {b:02x}")); break;}
+					}
+					match bad
+					{
+						Some(w) => cx.report.oracle_fail(input, format!("re-assembled image differs: {w}")),
+						None => cx.report.hit("round trip ok"),
+					}
+				},
+			}
+		},
+	}
+}
+
+pub fn run(_id: &str, cx: &mut Cx)
+{
+	cx.report.rule = "binaries = 1..N instructions (N = 40 quick, 150 thorough; four branch densities) from the real encoder: random canonical 16/32-bit instructions, B/B<cond>/BL to random boundaries (forward, backward, self), terminals BX / POP {..,PC} / UDF / B (also BKPT, UDF.W, MOV PC, ADD PC), repaired until every instruction is reachable, terminal at the end, no ADR / LDR literal. \
+Each: real tridas -> listing -> real trias -> UF2 -> independent reader. non-trivial = every case; distinct = distinct listing structures".to_owned();
+	if let Some(input) = cx.replay.clone()
+	{
+		match unhex(&input)
+		{
+			Some(bin) =>
+			{
+				let reply = cx.model.ask(&model_request(&bin));
+				check_one(cx, &bin, &reply, 0);
+			},
+			None => cx.report.oracle_fail(input, "unrecognised replay input"),
+		}
+		return;
+	}
+	let n = if cx.thorough() {25_000} else {2_500};
+	let max_n = if cx.thorough() {150} else {40};
+	let mut bins: Vec<Vec<u8>> = Vec::new();
+	// fixed small cases: single terminal, self branch, backward loop, BL forward
+	for h in ["7047", "fee7", "00bf fde7", "00f001f8 7047 7047", "00d0 00bf 7047", "00bd"]
+	{
+		bins.push(unhex(&h.replace(' ', "")).unwrap());
+	}
+	let mut rejected = 0u64;
+	while bins.len() < n
+	{
+		let m = if bins.len() % 10 == 0 {6} else {max_n};
+		match gen_binary(&mut cx.rng, m)
+		{
+			Some(b) => bins.push(b),
+			None => rejected += 1,
+		}
+	}
+	cx.report.hit_n("generator rejections", rejected);
+	let mut serial = 0u64;
+	for chunk in bins.chunks(256)
+	{
+		let lines: Vec<String> = chunk.iter().map(|b| model_request(b)).collect();
+		let replies = cx.model.ask_many(&lines);
+		for (b, r) in chunk.iter().zip(replies.iter())
+		{
+			check_one(cx, b, r, serial);
+			serial += 1;
+		}
+	}
+	// a listing sample
+	if let Some(b) = bins.get(7)
+	{
+		let p = cx.work.join("sample.bin");
+		std::fs::write(&p, b).unwrap();
+		if let Ok(o) = Command::new(repo_bin("tridas")).arg(&p).output()
+		{
+			cx.report.sample(format!("{} -> {}", hex(b), String::from_utf8_lossy(&o.stdout).replace('\n', " / ")));
+		}
+	}
+	let _ = ImmReg::Immediate(0);
 }
